@@ -189,7 +189,7 @@ def explore_config(prop, cfg, judge, invariant=None, max_executions=300000, prun
             invariant(t, cfg, frames, lambda: case_for(trace))
     ex = Explorer(call, unit_points=unit_points_for(cfg), prune=prune, invariant=inv,
                   max_executions=max_executions, horizon=horizon,
-                  max_seconds=120 if max_executions <= 400000 else 2400)
+                  max_seconds=600 if max_executions <= 400000 else 3000)
     with quiet():
         st = ex.explore(on_complete)
     t.c['configs'] += 1
